@@ -217,7 +217,8 @@ func addstringtotargz(tw *tar.Writer, name string, align string) error {
 	header.Name = name + ext
 	header.Size = int64(len(alignbytes))
 	header.Mode = 436 //int64(stat.Mode())
-	header.ModTime = time.Now()
+	// a fixed date: the archive of a seeded run does not depend on when it is written
+	header.ModTime = time.Unix(0, 0)
 	// write the header to the tarball archive
 	if err := tw.WriteHeader(header); err != nil {
 		return err
